@@ -258,3 +258,50 @@ def same_value(want, got):
         elif wb != gb:
             return False
     return True
+
+
+def run_one(binp, op, data, stream="replay", limit="700ms"):
+    """Run the implementation on one input; returns the observed case or None."""
+    rc, out, err = vlib.sh2([binp, "-oneop", op, "-onein", data.hex(), "-onestream", stream,
+                             "-limit", limit], timeout=60)
+    for line in out.splitlines():
+        if line.startswith("{"):
+            return json.loads(line)
+    return None
+
+
+def shrink(ck, case, still_fails, budget=120):
+    """Delta-debugging on the input bytes of a failing case, re-running the
+    implementation only (the oracle decides).  Returns the smallest failing
+    case found (possibly the original)."""
+    if case["op"] not in ("tojson", "unmarshal", "series", "shell", "ptokens", "raw", "filtered"):
+        return case
+    binp = os.path.join(vlib.BUILD, "bin", "jsonx")
+    if not os.path.exists(binp):
+        return case
+    best, data = case, bytes.fromhex(case["in"])
+    n = 2
+    tries = 0
+    while len(data) >= 2 and tries < budget:
+        chunk = max(1, len(data) // n)
+        reduced = False
+        for i in range(0, len(data), chunk):
+            cand = data[:i] + data[i + chunk:]
+            if not cand:
+                continue
+            tries += 1
+            c2 = run_one(binp, case["op"], cand, case["stream"])
+            if c2 is not None:
+                for k in ("want", "reject"):
+                    c2.pop(k, None)
+                if still_fails(c2):
+                    best, data, reduced = c2, cand, True
+                    n = max(n - 1, 2)
+                    break
+            if tries >= budget:
+                break
+        if not reduced:
+            if chunk == 1:
+                break
+            n = min(n * 2, len(data))
+    return best
